@@ -62,6 +62,7 @@ Tasks == DOMAIN prog.drv
 FN(f)  == prog.fn[f]
 CON(c) == prog.con[c]
 SNP(s) == prog.snp[s]
+NoArgsCap(s) == "noargs" \in DOMAIN prog.snp[s] /\ prog.snp[s].noargs = 1
 ClsOf(o)   == prog.obj[o].cls
 InvAll(o)  == prog.cls[ClsOf(o)].inv
 InvCall(o) == prog.cls[ClsOf(o)].oncall
@@ -321,10 +322,13 @@ ChkStep(t) ==
          ELSE IF fr.sub = ""
            THEN IF ~FN(f).async /\ SNP(S[fr.i]).rv = "corofn"
                   THEN Leave(t, fr, Raise("ValueError", S[fr.i]))
-                  ELSE /\ PushOn(t, [fr EXCEPT !.sub = "wait"], UsrFrame("cap", S[fr.i], OOf(fr), fr.a, "", nx + 1, fr.f))
+                  ELSE \* (a capture without parameters receives nothing of the call; it is still evaluated at every call)
+                       LET co == IF NoArgsCap(S[fr.i]) THEN 0 ELSE OOf(fr)
+                           ca == IF NoArgsCap(S[fr.i]) THEN 0 ELSE fr.a IN
+                       /\ PushOn(t, [fr EXCEPT !.sub = "wait"], UsrFrame("cap", S[fr.i], co, ca, "", nx + 1, fr.f))
                        /\ reg' = [reg EXCEPT ![t] = NoOut]
                        /\ nx' = nx + 1
-                       /\ Emit(Ev("cap.in", t, S[fr.i], OOf(fr), fr.a, 0, "", <<>>, 0, "snap", FALSE))
+                       /\ Emit(Ev("cap.in", t, S[fr.i], co, ca, 0, "", <<>>, 0, "snap", FALSE))
                        /\ Unch_ip /\ UNCHANGED <<prog, ost, status, ns>>
          ELSE \* capture returned
               IF r.k = "raise" THEN Leave(t, fr, r)
